@@ -248,12 +248,13 @@ theorem C07_budget_step (s : St) (op : Op) :
     | none => simp [step, hobj]
     | some o => cases hl : hasLease o <;> simp [step, hobj, hl]
 
+set_option linter.unusedSimpArgs false in
 /-- **The abstract specification, step by step.**  The whole behaviour is that of one counter, the frontier: it never
 moves backwards; a number handed out is the frontier at that moment and moves it past itself; and whatever else an
 operation adds to the frontier (numbers skipped = wasted) is covered by the interval of an object abandoned by that very
 operation (`budget` grows by exactly that, `C07_budget_step`) — so `Next`, `Release`, store errors and exhaustion waste
 nothing, and a crash or an unreleased restart wastes at most the one interval. -/
-theorem C07_frontier_step (s : St) (h : Inv s) (op : Op) (hw : op.wf) :
+theorem C07_frontier_step (s : St) (h : Inv s) (op : Op) (_hw : op.wf) :
     frontier s ≤ frontier (step s op).1 ∧
     frontier (step s op).1 + s.budget ≤ frontier s + (nums [(step s op).2]).length + (step s op).1.budget ∧
     (∀ n, (step s op).2 = .num n → n = frontier s ∧ frontier s < frontier (step s op).1) := by
